@@ -134,6 +134,7 @@ STMTS = {
     "oldclass": lambda n, doc: fdef(n, [], doc, cls=True).replace("(self)", "(cls)") + f"{n} = classmethod({n})\n",
     "rewrapped": lambda n, doc: fdef(n, [], doc, cls=True).replace("(self)", "(cls)") + f"{n} = staticmethod({n})\n{n} = classmethod({n})\n",
     "deco_then_wrapped": lambda n, doc: fdef(n, ["staticmethod"], doc, cls=True) + f"{n} = staticmethod({n})\n",
+    "assign_twice": lambda n, doc: f"{n} = 1\n'''First doc.'''\n{n} = 2.5\n" + (DOCS["one"] + "\n" if doc != "none" else ""),
     "assign": lambda n, doc: f"{n} = 1\n" + (DOCS["one"] + "\n" if doc != "none" else ""),
     "annassign": lambda n, doc: f"{n}: int = 1\n" + (DOCS["one"] + "\n" if doc != "none" else ""),
     "annonly": lambda n, doc: f"{n}: int\n",
@@ -184,6 +185,40 @@ def pdkind(o):
     return m.get(o.kind, "var")
 
 
+def attribute_docs(src, scope):
+    """{variable name: docstring} by the attribute-docstring convention: the string statement that directly follows an assignment to a
+    single name documents it; a later documented assignment replaces an earlier one.  Taken bodies (if/try/with/for/while) are read in
+    place; the excluded `if __name__ == '__main__'` body is not."""
+    tree = ast.parse(src)
+    body = tree.body
+    if scope == "class":
+        body = next(n for n in tree.body if isinstance(n, ast.ClassDef) and n.name == "Host").body
+    docs = {}
+
+    def scan(stmts):
+        prev = None
+        for st in stmts:
+            if isinstance(st, ast.Expr) and isinstance(st.value, ast.Constant) and isinstance(st.value.value, str) and prev is not None:
+                docs[prev] = inspect.cleandoc(st.value.value)
+                prev = None
+                continue
+            prev = None
+            if isinstance(st, ast.Assign) and len(st.targets) == 1 and isinstance(st.targets[0], ast.Name):
+                prev = st.targets[0].id
+            elif isinstance(st, ast.AnnAssign) and isinstance(st.target, ast.Name):
+                prev = st.target.id
+            elif isinstance(st, ast.If):
+                t = ast.unparse(st.test)
+                if t == "__name__ == '__main__'":
+                    continue
+                if t in ("True", "__name__ != '__main__'", "not __name__ == '__main__'"):
+                    scan(st.body)
+            elif isinstance(st, (ast.Try, ast.With, ast.For, ast.While)) or type(st).__name__ == "TryStar":
+                scan(st.body)
+    scan(body)
+    return docs
+
+
 def check_program(src, scope):
     sample(program=src, scope=scope)
     ns = {"__name__": "m"}
@@ -202,6 +237,7 @@ def check_program(src, scope):
         anns = set(vars(ns["Host"]).get("__annotations__", {}))
         ctx = s.allobjects["m.Host"]
     pd = dict(ctx.contents)
+    attrdocs = attribute_docs(src, scope)
     for k in sorted(set(pyns) | set(pd)):
         if k in ("contextlib", "_i"):
             continue          # helper names of the wrappers (an import, a loop target): not definitions
@@ -227,6 +263,11 @@ def check_program(src, scope):
                 return False
             if isinstance(pd[k], model.Function) and pd[k].is_async != inspect.iscoroutinefunction(f):
                 note(why="async flag differs", name=k, src=src)
+                return False
+        if pk == "var" and isinstance(pd[k], model.Attribute):
+            want = attrdocs.get(k)
+            if pd[k].docstring != want:
+                note(why="attribute docstring differs from the string that follows the (last documented) assignment", name=k, expected=want, pydoctor=pd[k].docstring, src=src)
                 return False
         if pk in ("Class", "Exception"):
             # one level down: nested definitions of the class
@@ -262,7 +303,7 @@ NW = len(WKEYS)
     parts=lambda: [[sc, i] for sc in range(2) for i in range(NK)], timeout=(240, 1800), cls="E", tracing="concrete-after-choice", twin="first",
     code=["pydoctor.astbuilder.ModuleVistor.visit_If/visit_ClassDef/_handleFunctionDef/_handleOldSchoolMethodDecoration/_handlePropertyDef/_handleAssignment*/visit_Expr/visit_Try/visit_With/visit_For",
           "pydoctor.astutils.get_docstring_node/extract_docstring/NodeVisitor.get_children", "pydoctor.model.is_exception/defaultPostProcess"],
-    bounds={"quick": "two-statement programs: 19 statement kinds (def, async def, a method wrapped twice in the old style, a decorated static method wrapped again, exception class with a mixin listed after the builtin exception, exception class through an intermediate class, classmethod, staticmethod, property, old-style staticmethod()/classmethod() wrapping, assignment, annotated assignment, annotation only, class, exception class, def nested in a def, tuple assignment, class with nested class) for each of the two statements x 10 wrappers of the first (plain, if, try, try with except*, while, with, for, `if __name__ == '__main__'`, `if __name__ != '__main__'`, `if not (__name__ == '__main__')`) x 7 docstring layouts (none, one line, multi-line with relative indentation, leading blank line, trailing blanks, over-indented first text line, closing quotes deeper than the text) x module / class scope",
+    bounds={"quick": "two-statement programs: 20 statement kinds (def, async def, a variable assigned and documented twice, a method wrapped twice in the old style, a decorated static method wrapped again, exception class with a mixin listed after the builtin exception, exception class through an intermediate class, classmethod, staticmethod, property, old-style staticmethod()/classmethod() wrapping, assignment, annotated assignment, annotation only, class, exception class, def nested in a def, tuple assignment, class with nested class) for each of the two statements x 10 wrappers of the first (plain, if, try, try with except*, while, with, for, `if __name__ == '__main__'`, `if __name__ != '__main__'`, `if not (__name__ == '__main__')`) x 7 docstring layouts (none, one line, multi-line with relative indentation, leading blank line, trailing blanks, over-indented first text line, closing quotes deeper than the text) x module / class scope",
             "thorough": "same"},
     outside="multi-module packages (C04/C07), metaclasses, __slots__, conditional redefinition (C02), except/finally bodies",
 )
